@@ -133,7 +133,10 @@ def table(tier="quick"):
             fam="FParafac", opts=dict(init="IRandom", errors=False), mask=mk)
     add("randomised_parafac", "tensorly.decomposition.randomised_parafac",
         lambda d: (lambda X=d.arr(*SH): dec.randomised_parafac(X, R, n_samples=8, n_iter_max=3, random_state=1, return_errors=True)),
-        fam="FRandParafac", real=ERR)
+        fam="FRandParafac", opts=dict(init="IRandom", errors=True), real=ERR)
+    add("randomised_parafac_svd", "tensorly.decomposition.randomised_parafac",
+        lambda d: (lambda X=d.arr(*SH): dec.randomised_parafac(X, R, n_samples=8, n_iter_max=3, init="svd", random_state=1)),
+        fam="FRandParafac", opts=dict(init="ISvd"))
     add("sample_khatri_rao", "tensorly.decomposition.sample_khatri_rao",
         lambda d: (lambda fs=cpinit(d)[1]: sample_khatri_rao(fs, 5, random_state=1, return_sampled_rows=True)), fam="FSampleKR",
         exempt={"#1": "sampled row indices", "#2": "sampled row indices"})
@@ -337,10 +340,10 @@ def table(tier="quick"):
     add("higher_order_moment", "tensorly.tenalg.higher_order_moment", lambda d: (lambda X=d.arr(6, 3): tenalg.higher_order_moment(X, 3)), fam="FMoment")
     # ------------------------------------------------------------------ random generators with dtype=
     add("random_cp", "tensorly.random.random_cp", lambda d: (lambda: tlr.random_cp((3, 4, 2), 2, random_state=1, dtype=d.dt)), fam="FRandom")
-    add("random_cp_orth_norm", "tensorly.random.random_cp", lambda d: (lambda: tlr.random_cp((3, 4, 2), 2, random_state=1, orthogonal=True, normalise_factors=True, dtype=d.dt)), fam="FRandom")
+    add("random_cp_orth_norm", "tensorly.random.random_cp", lambda d: (lambda: tlr.random_cp((3, 4, 2), 2, random_state=1, orthogonal=True, normalise_factors=True, dtype=d.dt)), fam="FRandom", opts=dict(alt=True, normalize=True))
     add("random_cp_full", "tensorly.random.random_cp", lambda d: (lambda: tlr.random_cp((3, 4, 2), 2, full=True, random_state=1, dtype=d.dt)), fam="FRandom")
     add("random_tucker", "tensorly.random.random_tucker", lambda d: (lambda: tlr.random_tucker((3, 4, 2), [2, 2, 2], random_state=1, dtype=d.dt)), fam="FRandom")
-    add("random_tucker_orth_nn", "tensorly.random.random_tucker", lambda d: (lambda: (tlr.random_tucker((3, 4, 2), [2, 2, 2], orthogonal=True, random_state=1, dtype=d.dt), tlr.random_tucker((3, 4, 2), [2, 2, 2], non_negative=True, full=True, random_state=1, dtype=d.dt))), fam="FRandom")
+    add("random_tucker_orth_nn", "tensorly.random.random_tucker", lambda d: (lambda: (tlr.random_tucker((3, 4, 2), [2, 2, 2], orthogonal=True, random_state=1, dtype=d.dt), tlr.random_tucker((3, 4, 2), [2, 2, 2], non_negative=True, full=True, random_state=1, dtype=d.dt))), fam="FRandom", opts=dict(alt=True, warm=True))
     add("random_tt", "tensorly.random.random_tt", lambda d: (lambda: tlr.random_tt((3, 4, 2), [1, 2, 2, 1], random_state=1, dtype=d.dt)), fam="FRandom")
     add("random_tr", "tensorly.random.random_tr", lambda d: (lambda: tlr.random_tr((3, 4, 2), [2, 2, 2, 2], random_state=1, dtype=d.dt)), fam="FRandom")
     add("random_tt_matrix", "tensorly.random.random_tt_matrix", lambda d: (lambda: tlr.random_tt_matrix((2, 3, 2, 3), [1, 2, 1], random_state=1, dtype=d.dt)), fam="FRandom")
@@ -483,6 +486,122 @@ def table(tier="quick"):
     return T
 
 
+def random_rows(rng, n):
+    """option-lattice sampling: random combinations of initialisation x mask dtype x normalisation x line search x sparsity x
+    l2 x orthogonalise x errors x constraint kind x shape/order for the entry points with transcribed skeletons (the
+    skeleton is parametric in these options, so every combination has a prediction).  These rows are marked `lenient`:
+    a combination the library rejects for reasons unrelated to dtypes is counted as skipped."""
+    from tensorly import decomposition as dec
+    from tensorly.cp_tensor import CPTensor
+    from tensorly.tenalg import proximal as P
+    from tensorly.solvers.admm import admm
+    rows = []
+
+    def add(name, ep, build, fam, opts, mask, dts, real=(), n=3, slotmap=None):
+        rows.append(dict(name=name, ep=ep, build=build, fam=fam, opts=opts, mask=mask, dts=tuple(dts), real=set(real), exempt={}, n=n,
+                         slotmap=slotmap or {}, lenient=True))
+    shapes = [(4, 3), (3, 4, 2), (4, 3, 5), (2, 3, 2, 3)]
+    for i in range(n):
+        kind = rng.choice(["parafac", "parafac", "parafac", "nn_parafac", "tucker", "constrained", "admm", "nn_hals", "nn_tucker_hals"])
+        sh = rng.choice(shapes)
+        rank = rng.choice([1, 2, 3])
+        init = rng.choice(["random", "svd", "user"])
+        mk = rng.choice([None, None, "same", "bool", "int", "f64", "f32"])
+        errors = rng.random() < 0.5
+        norm = rng.random() < 0.4
+        dt_real = rng.choice([F32, F32, F64])
+        if kind == "parafac":
+            ls = rng.random() < 0.4
+            sp = rng.random() < 0.25
+            l2 = rng.random() < 0.3
+            orth = rng.random() < 0.3
+            nit = 9 if ls else rng.choice([1, 2, 4])
+            cplx = mk is None and not sp and rng.random() < 0.3
+            dts = [rng.choice(["complex64", C128])] if cplx else [dt_real]
+            kw = dict(n_iter_max=nit, normalize_factors=norm, return_errors=errors, linesearch=ls, random_state=1 + i)
+            if sp:
+                kw["sparsity"] = 0.2
+            if l2:
+                kw["l2_reg"] = 0.1
+            if orth:
+                kw["orthogonalise"] = True
+            opts = dict(init={"random": "IRandom", "svd": "ISvd", "user": "IUser"}[init], errors=errors, normalize=norm, linesearch=ls, sparsity=sp, l2reg=l2)
+            slotmap = {"#0": "sparse"} if (sp and errors) else {}
+            real = {"#1"} | ({"#0.weights", ".weights"} if norm else set())
+
+            def build(d, sh=sh, rank=rank, init=init, mk=mk, kw=kw):
+                X = d.arr(*sh)
+                m = d.mask(sh, mk) if mk else None
+                ini = (np.ones(rank, dtype=d.dt), [d.arr(s_, rank) for s_ in sh]) if init == "user" else init
+                return lambda: dec.parafac(X, rank, init=ini, mask=m, **kw)
+            add(f"rnd{i}_parafac_{init}_{mk}_ls{int(ls)}_sp{int(sp)}_l2{int(l2)}_or{int(orth)}_nz{int(norm)}_er{int(errors)}_{'x'.join(map(str, sh))}_r{rank}",
+                "tensorly.decomposition.parafac", build, "FParafac", opts, mk, dts, real=real, n=nit, slotmap=slotmap)
+        elif kind == "nn_parafac":
+            opts = dict(init={"random": "IRandom", "svd": "ISvd", "user": "IUser"}[init], errors=errors, normalize=norm)
+
+            def build(d, sh=sh, rank=rank, init=init, mk=mk, norm=norm, errors=errors, i=i):
+                X = d.arr(*sh)
+                m = d.mask(sh, mk) if mk else None
+                ini = (np.ones(rank, dtype=d.dt), [d.arr(s_, rank) for s_ in sh]) if init == "user" else init
+                return lambda: dec.non_negative_parafac(X, rank, n_iter_max=3, init=ini, mask=m, normalize_factors=norm, return_errors=errors, random_state=1 + i)
+            add(f"rnd{i}_nn_parafac_{init}_{mk}_nz{int(norm)}_er{int(errors)}_{'x'.join(map(str, sh))}_r{rank}", "tensorly.decomposition.non_negative_parafac",
+                build, "FNNParafac", opts, mk, [dt_real], real={"#1"})
+        elif kind == "nn_hals":
+            opts = dict(init={"random": "IRandom", "svd": "ISvd", "user": "IUser"}[init], errors=errors, normalize=norm)
+
+            def build(d, sh=sh, rank=rank, init=init, norm=norm, errors=errors, i=i):
+                X = d.arr(*sh)
+                ini = (np.ones(rank, dtype=d.dt), [d.arr(s_, rank) for s_ in sh]) if init == "user" else init
+                return lambda: dec.non_negative_parafac_hals(X, rank, n_iter_max=3, init=ini, normalize_factors=norm, return_errors=errors, random_state=1 + i,
+                                                            sparsity_coefficients=[0.1] * len(sh) if i % 2 else None, exact=bool(i % 3 == 0))
+            add(f"rnd{i}_nn_hals_{init}_nz{int(norm)}_er{int(errors)}_{'x'.join(map(str, sh))}_r{rank}", "tensorly.decomposition.non_negative_parafac_hals",
+                build, "FNNParafacHals", opts, None, [dt_real], real={"#1"})
+        elif kind == "tucker":
+            init_t = rng.choice(["random", "svd"])
+            cplx = mk is None and rng.random() < 0.3
+            dts = [rng.choice(["complex64", C128])] if cplx else [dt_real]
+            opts = dict(init={"random": "IRandom", "svd": "ISvd"}[init_t], errors=errors)
+
+            def build(d, sh=sh, rank=rank, init_t=init_t, mk=mk, errors=errors, i=i):
+                X = d.arr(*sh)
+                m = d.mask(sh, mk) if mk else None
+                return lambda: dec.tucker(X, [min(rank, s_) for s_ in sh], n_iter_max=3, init=init_t, mask=m, return_errors=errors, random_state=1 + i)
+            add(f"rnd{i}_tucker_{init_t}_{mk}_er{int(errors)}_{'x'.join(map(str, sh))}_r{rank}", "tensorly.decomposition.tucker", build, "FTucker", opts, mk, dts, real={"#1"})
+        elif kind == "nn_tucker_hals":
+            init_t = rng.choice(["random", "svd"])
+            alg = rng.choice(["fista", "active_set"])
+            opts = dict(init={"random": "IRandom", "svd": "ISvd"}[init_t], errors=errors, alg=alg, normalize=norm)
+
+            def build(d, sh=sh, rank=rank, init_t=init_t, alg=alg, norm=norm, errors=errors, i=i):
+                X = d.arr(*sh)
+                return lambda: dec.non_negative_tucker_hals(X, [min(rank, s_) for s_ in sh], n_iter_max=2, init=init_t, algorithm=alg, normalize_factors=norm,
+                                                           return_errors=errors, random_state=1 + i)
+            add(f"rnd{i}_nn_tucker_hals_{init_t}_{alg}_nz{int(norm)}_er{int(errors)}_{'x'.join(map(str, sh))}_r{rank}", "tensorly.decomposition.non_negative_tucker_hals",
+                build, "FNNTuckerHals", opts, None, [dt_real], real={"#1"})
+        elif kind == "constrained":
+            cname, ckw = rng.choice(CONSTRAINTS)
+            opts = dict(init={"random": "IRandom", "svd": "ISvd", "user": "IUser"}[init], prox=cname, errors=errors)
+
+            def build(d, sh=sh, rank=rank, init=init, ckw=ckw, errors=errors, i=i):
+                X = d.arr(*sh)
+                ini = (np.ones(rank, dtype=d.dt), [d.arr(s_, rank) for s_ in sh]) if init == "user" else init
+                return lambda: dec.constrained_parafac(X, rank, n_iter_max=2, init=ini, return_errors=errors, random_state=1 + i, **ckw)
+            add(f"rnd{i}_constrained_{cname}_{init}_er{int(errors)}_{'x'.join(map(str, sh))}_r{rank}", "tensorly.decomposition.constrained_parafac", build,
+                "FConstrained", opts, None, [dt_real], real={"#1"})
+        else:
+            cname, ckw = rng.choice(CONSTRAINTS)
+            rows_, cols_ = rng.choice([(3, 4), (5, 2), (2, 2)])
+
+            def build(d, ckw=ckw, rows_=rows_, cols_=cols_):
+                Mx = d.arr(6, cols_)
+                UtU = (Mx.T @ Mx).astype(d.dt)
+                UtM = (d.arr(rows_, 6) @ Mx).astype(d.dt)
+                x = d.arr(rows_, cols_)
+                return lambda: admm(UtM, UtU, x, np.zeros((rows_, cols_), dtype=d.dt), n_const=1, order=0, n_iter_max=4, **ckw)
+            add(f"rnd{i}_admm_{cname}_{rows_}x{cols_}", "tensorly.solvers.admm.admm", build, "FAdmm", dict(prox=cname), None, [dt_real])
+    return rows
+
+
 def _einsum(thunk):
     from tensorly import tenalg
     tenalg.set_backend("einsum")
@@ -590,7 +709,7 @@ def cfg_lit(t):
             .format(fam=t["fam"], init=o.get("init", "IRandom"), mask=b(t["mask"] is not None), errors=b(o.get("errors", False)),
                     normalize=b(o.get("normalize", False)), linesearch=b(o.get("linesearch", False)), sparsity=b(o.get("sparsity", False)),
                     l2reg=b(o.get("l2reg", False)), prox=PROX_COQ[o.get("prox", "none")], warm=b(o.get("warm", False)),
-                    fallback=b(o.get("fallback", False)), alt=b(o.get("alg") == "active_set" or o.get("nonneg", False))))
+                    fallback=b(o.get("fallback", False)), alt=b(o.get("alg") == "active_set" or o.get("nonneg", False) or o.get("alt", False) or o.get("nn", False))))
 
 
 def model_slot(t, raw):
@@ -613,10 +732,9 @@ def real_dtype(dt):
 
 
 def expected_dtype(data_dt, mask_dt):
-    """the floating dtypes of the data the result was computed from: a floating mask of another precision is data as well,
-    so both the data's dtype (mask cast into the context) and the promotion of the two are in the numeric context"""
-    if mask_dt is not None and np.dtype(mask_dt).kind in "fc":
-        return sorted({data_dt, str(np.result_type(np.dtype(data_dt), np.dtype(mask_dt)))})
+    """the floating dtype of the DATA.  A mask is an indicator of observed entries, not data: whatever its dtype (bool, int64,
+    float of another precision) the result has the data's dtype (all masked entry points cast the mask into the data's
+    context - robust_pca always did, parafac / non_negative_parafac / tucker / svd_interface since 45ef7df)."""
     return [data_dt]
 
 
@@ -659,6 +777,8 @@ def run_config(t, data_dt, seed=0, verbose_capture=False):
         st, v = C.call_impl(thunk, timeout=60)
     C.reset_backends()
     if st != "ok":
+        if v == "timeout":
+            return "timeout", [], dict(info, error=v)
         return st, [], dict(info, error=v)
     obs = sorted({(s, str(a.dtype)) for s, a in arrays_of(v)})
     info["n_arrays"] = sum(1 for _ in arrays_of(v))
@@ -674,7 +794,9 @@ def linesearch_probe(dt):
     buf = io.StringIO()
     with contextlib.redirect_stdout(buf):
         st, v = C.call_impl(lambda: dec.parafac(X, 3, n_iter_max=30, tol=0, linesearch=True, init="random", random_state=3, verbose=1, return_errors=True), timeout=120)
-    return buf.getvalue().count("Accepted line search jump") if st == "ok" else -1
+    if st != "ok":
+        return None if v == "timeout" else -1
+    return buf.getvalue().count("Accepted line search jump")
 
 
 # ---- known-finding classifiers (predicates on the failing input)
@@ -700,8 +822,9 @@ def clf_active_set(f):
         and all(o == dbl for _, o, _ in i["failures"])
 
 
-CLASSIFIERS = {"mask_bool_or_int_with_single_precision_data": clf_mask,
-               "warm_start_with_singular_passive_block_single_precision": clf_active_set}
+# no known finding is open at the moment (c906acd and 45ef7df repaired both classes); the predicates are kept for the
+# replay messages and in case a class has to be registered again
+CLASSIFIERS = {}
 
 
 def _install_known_loader():
@@ -727,6 +850,8 @@ def _install_known_loader():
 
 def dtypes_for(t, tier):
     dts = list(t["dts"])
+    if t.get("lenient"):
+        return dts
     if "complex128" in dts:
         dts.append("complex64")
     return dts
@@ -752,11 +877,44 @@ def run(chk):
     chk.hist("stream", "promotion-table entries")
     # ---- 2. entry points
     T = table(chk.tier)
+    # ---- 2a. corpus of past findings / disagreements (minimised regression inputs) runs first
+    import glob, json, os
+    byname = {t["name"]: t for t in T}
+    for fn in sorted(glob.glob(os.path.join(C.VERIF, "corpus", "C18", "*.json"))):
+        item = json.load(open(fn))
+        if "table" in item:
+            kind, a, b = item["table"]
+            got = [r for k, x, y, r in tab if (k, x, y) == (kind, a, b)]
+            chk.count(key=("corpus", os.path.basename(fn)), nontrivial=True); chk.hist("stream", "corpus")
+            if not got or got[0] not in ALL_DT:
+                chk.disagreement("corr:C18 promotion table (corpus " + os.path.basename(fn) + ")", {"table": item["table"], "measured": got})
+            continue
+        t = byname.get(item["config"])
+        if t is None:
+            chk.broken.append({"what": "C18 corpus entry names an unknown configuration", "detail": fn})
+            continue
+        st, obs, info = run_config(t, item["dtype"], item.get("seed", 0))
+        chk.count(key=("corpus", os.path.basename(fn)), nontrivial=True); chk.hist("stream", "corpus")
+        if st == "timeout":
+            chk.hist("skipped", "per-case timeout"); continue
+        mask_dt = None if t["mask"] is None else (MASK_DT[t["mask"]] or item["dtype"])
+        inputs = {"config": t["name"], "dtype": item["dtype"], "seed": item.get("seed", 0), "mask_dtype": mask_dt, "corpus": os.path.basename(fn)}
+        if st != "ok":
+            chk.finding(t["ep"], inputs, f"corpus configuration raised: {info.get('error')}", "C18_runs", observed=info.get("error"))
+            continue
+        bad = dtype_predicate(t, item["dtype"], mask_dt, obs)
+        if bad:
+            inputs["failures"] = bad
+            chk.finding(t["ep"], inputs, "corpus regression: returned arrays leave the numeric context of the input: " +
+                        ", ".join(f"{s_ or 'result'}: {o} (expected {e})" for s_, o, e in bad), "C18_dtype_of_every_returned_array",
+                        observed={s_: o for s_, o, _ in bad}, expected=expected_dtype(item["dtype"], mask_dt))
     seeds = [0] if chk.tier == "quick" else [0, 1 + rng.randrange(1000), 1 + rng.randrange(1000)]
-    n_fail_known = 0
+    n_rand = 24 if chk.tier == "quick" else 150
+    T = T + random_rows(random.Random(f"C18-rows-{chk.seed}"), n_rand)   # derived from the check seed; replayable by (seed, n)
+    n_skipped = 0
     for t in T:
         for data_dt in dtypes_for(t, chk.tier):
-            for seed in seeds:
+            for seed in (seeds[:1] if t.get("lenient") else seeds):
                 st, obs, info = run_config(t, data_dt, seed)
                 mask_dt = None if t["mask"] is None else (MASK_DT[t["mask"]] or data_dt)
                 key = (t["name"], data_dt, t["mask"])
@@ -764,9 +922,20 @@ def run(chk):
                 chk.hist("family", t["fam"]); chk.hist("data dtype", data_dt); chk.hist("mask", str(t["mask"]))
                 chk.hist("outcome", st)
                 inputs = {"config": t["name"], "dtype": data_dt, "seed": seed, "mask_dtype": mask_dt, "arg_dtypes": info.get("arg_dtypes")}
+                if t.get("lenient"):
+                    inputs["random_rows"] = [chk.seed, n_rand]
                 for k in ("x_given", "passive_block_singular"):
                     if k in info:
                         inputs[k] = info[k]
+                if st == "timeout":
+                    # a loaded machine is not a property violation: counted and reported as skipped
+                    chk.hist("skipped", "per-case timeout")
+                    n_skipped += 1
+                    continue
+                if st != "ok" and t.get("lenient"):
+                    # a random option combination the library rejects (for reasons unrelated to dtypes): counted, not a verdict
+                    chk.hist("skipped", "random option combination rejected: " + str(info.get("error"))[:60])
+                    continue
                 if st != "ok":
                     # every configuration of the table is a supported call: a raise is reported, never dropped
                     chk.finding(t["ep"], inputs, f"configuration raised: {info.get('error')}", "C18_runs", observed=info.get("error"))
@@ -787,7 +956,9 @@ def run(chk):
     # ---- 3. non-vacuity of the line-search stream
     acc = {dt: linesearch_probe(dt) for dt in ("float32", "float64", "complex128")}
     chk.notes.append(f"parafac(linesearch=True) on near-collinear data, 30 sweeps: accepted line-search jumps per dtype = {acc}")
-    if min(acc.values()) <= 0:
+    if any(v is None for v in acc.values()):
+        chk.hist("skipped", "line-search probe timeout")
+    elif min(acc.values()) <= 0:
         chk.broken.append({"what": "C18 harness: the line-search configuration no longer accepts any jump (stream is vacuous)", "detail": acc})
     failing, n_eval, broken = C.run_case_shards("C18", HEADER, "case", cases, shard=300)
     chk.checker_cmds.append("coqc (vm_compute) on generated build/cases/C18/*.v: Corr.C18.failing")
@@ -798,6 +969,8 @@ def run(chk):
                        f"{len(T)}-row entry-point table x data dtype in {{float32,float64}} (+complex64/complex128 where the entry point supports complex data) x "
                        "mask dtype in {none, same, bool, int64, float64} where a mask is accepted (quick: one data seed; thorough: three); every array and NumPy "
                        "scalar of the returned structure is inspected; distinct key = (configuration, data dtype, mask kind); all are non-trivial")
+    if n_skipped:
+        chk.notes.append(f"{n_skipped} configuration runs hit the per-case timeout and were skipped (not a verdict)")
     for b in broken:
         chk.broken.append({"what": "correspondence corr:C18 shard not evaluated", "detail": b})
     for i in sorted(failing):
@@ -810,7 +983,7 @@ def run(chk):
                              {"config": t["name"], "dtype": data_dt, "mask_dtype": mask_dt, "seed": seed, "observed": obs, "cfg": cfg_lit(t)})
     chk.assumptions = ["the skeletons abstract the data flow of the entry points (which value is combined with which); they are tied to the code only through the "
                        "observed output dtypes of this run's configurations",
-                       "a floating-point mask of another precision than the data counts as input data (expected dtype = their promotion)",
+                       "a mask is an indicator, not data: for every mask dtype (bool, int64, float of another precision) the expected dtype is the data's",
                        "real-valued-by-definition outputs (errors, norms, singular values, |weights|) of complex input are expected in the real type of the same precision"]
     chk.trusted = ["NumPy's dtype attribute of the returned arrays", "table of entry-point configurations (harness/props/C18.py) as the universe of 'public entry points'"]
     _install_known_loader()
@@ -823,7 +996,10 @@ def replay(payload):
         print("replay file names a broken theorem/correspondence, not an input:", payload.get("theorem_or_correspondence"))
         return 1
     inp = payload["inputs"]
-    for t in table("thorough"):
+    rows = table("thorough")
+    if inp.get("random_rows"):
+        rows = rows + random_rows(random.Random(f"C18-rows-{inp['random_rows'][0]}"), inp["random_rows"][1])
+    for t in rows:
         if t["name"] == inp["config"]:
             st, obs, info = run_config(t, inp["dtype"], inp.get("seed", 0))
             if st != "ok":
